@@ -42,6 +42,7 @@ func timedCase(c *ev.Case) {
 		pushSide := rng.Bool()
 		// bring the ring to full (PushWait must wait) or empty (PopWait must wait)
 		var content []int
+		refused := -1
 		ok := c.Guard("prepare", func() {
 			for {
 				if _, ok := r.Pop(); !ok {
@@ -51,7 +52,8 @@ func timedCase(c *ev.Case) {
 			if pushSide {
 				for i := 0; i < cp; i++ {
 					if !r.Push(next) {
-						panic("Push failed while filling an empty ring")
+						refused = i
+						return
 					}
 					content = append(content, next)
 					next++
@@ -60,6 +62,45 @@ func timedCase(c *ev.Case) {
 		})
 		if !ok {
 			return
+		}
+		if refused >= 0 {
+			c.Failf("timed-prepare", "ring drained by one goroutine (Pop returned false), nothing in flight: Push #%d of %d returned false (Cap()=%d)", refused+1, cp, cp)
+			return
+		}
+		if rng.Bool() {
+			// A timed call with nothing else running: it may be refused only by a full (empty)
+			// ring, so with one free slot (one stored value) it must succeed, whatever maxWait is.
+			x := next
+			next++
+			var got, head int
+			var qok, hok bool
+			if !c.Guard("quiet timed call", func() {
+				if pushSide {
+					head, hok = r.Pop()
+					qok = r.PushWait(x, d)
+				} else {
+					hok = r.Push(x)
+					got, qok = r.PopWait(d)
+				}
+			}) {
+				return
+			}
+			if pushSide {
+				c.Logf("round %d: full ring %v, Pop -> (%d,%v), then PushWait(%d,%v) with nothing in flight -> %v", k, content, head, hok, x, d, qok)
+				if !hok || head != content[0] || !qok {
+					c.Failf("timed-quiet", "full ring %v, nothing in flight: Pop returned (%d,%v), then PushWait(%d, %v) on the ring with one free slot returned %v", content, head, hok, x, d, qok)
+					return
+				}
+				content = append(content[1:], x)
+				c.Add("timed_quiet_pushwait_ok", 1)
+			} else {
+				c.Logf("round %d: empty ring, Push(%d) -> %v, then PopWait(%v) with nothing in flight -> (%d,%v)", k, x, hok, d, got, qok)
+				if !hok || !qok || got != x {
+					c.Failf("timed-quiet", "empty ring, nothing in flight: Push(%d) returned %v, then PopWait(%v) returned (%d,%v)", x, hok, d, got, qok)
+					return
+				}
+				c.Add("timed_quiet_popwait_ok", 1)
+			}
 		}
 		v := next
 		next++
